@@ -18,13 +18,16 @@ Inductive pc : Type :=
 | PWritten (i : nat)     (* record written — hook "append.written" *)
 | PUnflocked (i : nat)   (* flock released (deferred GoFunlock, first part) *)
 | PDoneOk (i : nat)      (* returned 1-based index i *)
-| PDoneErr.              (* returned ErrPttLock *)
+| PFailing               (* the write failed (payload encoding/binary refuses): error pending, flock still held *)
+| PFailUnflocked         (* error path: flock released by the deferred GoFunlock *)
+| PDoneErr.              (* returned an error (ErrPttLock, or the write error) *)
 
 Record cfg : Type := mkCfg {
   sz : nat;                 (* record size (stride) *)
   half : nat;               (* where the write is cut in two *)
   proc : nat -> nat;
-  recd : nat -> list Z      (* the record thread t appends: sz bytes *)
+  recd : nat -> list Z;     (* the record thread t appends: sz bytes *)
+  bad : nat -> bool         (* thread t's payload cannot be serialised: BinaryWrite fails before writing anything *)
 }.
 
 Record st : Type := mkSt {
@@ -55,13 +58,16 @@ Definition step (c : cfg) (s : st) (t : nat) : option st :=
       end
   | PFlocked => Some (set_pc s t (PSeeked (length (file s) / sz c)))               (* Seek(0,End); idx = fsize / sz *)
   | PSeeked i =>
-      Some (mkSt (updf (pcs s) t (PHalf i)) (tbl s) (owner s)
+      if bad c t then Some (set_pc s t PFailing)
+      else Some (mkSt (updf (pcs s) t (PHalf i)) (tbl s) (owner s)
                  (write_at (i * sz c) (firstn (half c) (recd c t)) (file s)) (log s))
   | PHalf i =>
       Some (mkSt (updf (pcs s) t (PWritten i)) (tbl s) (owner s)
                  (write_at (i * sz c + half c) (skipn (half c) (recd c t)) (file s)) (log s ++ [t]))
   | PWritten i => Some (mkSt (updf (pcs s) t (PUnflocked i)) (tbl s) None (file s) (log s))
   | PUnflocked i => Some (mkSt (updf (pcs s) t (PDoneOk (S i))) (updf (tbl s) (proc c t) false) (owner s) (file s) (log s))
+  | PFailing => Some (mkSt (updf (pcs s) t PFailUnflocked) (tbl s) None (file s) (log s))
+  | PFailUnflocked => Some (mkSt (updf (pcs s) t PDoneErr) (updf (tbl s) (proc c t) false) (owner s) (file s) (log s))
   | PDoneOk _ => None
   | PDoneErr => None
   end.
@@ -80,7 +86,7 @@ Fixpoint replay (c : cfg) (sch : list nat) (s : st) : option st :=
   end.
 
 (* ------------------------------------------------------------------ wire *)
-(* case: [[1]; [sz; half]; procs (one per thread); init file bytes; schedule]; thread t appends sz bytes of value t+1.
+(* case: [[1]; [sz; half]; procs (one per thread; 100+p = process p with an unserialisable payload); init file bytes; schedule]; thread t appends sz bytes of value t+1.
    result: 0 :: (per thread: code, idx) ++ [-1] ++ file bytes; code 0 not finished, 1 ok, 2 err; status 3 7 = a scheduled step was not enabled *)
 Definition pc_code (p : pc) : list Z :=
   match p with
@@ -93,8 +99,8 @@ Definition run_case (args : list (list Z)) : list Z :=
   match args with
   | [[1]; [szz; hf]; procs; f0; sch] =>
       let n := length procs in
-      let c := mkCfg (Z.to_nat szz) (Z.to_nat hf) (fun t => Z.to_nat (nth t procs 0))
-                     (fun t => repeat (Z.of_nat (S t)) (Z.to_nat szz)) in
+      let c := mkCfg (Z.to_nat szz) (Z.to_nat hf) (fun t => Z.to_nat (nth t procs 0 mod 100))
+                     (fun t => repeat (Z.of_nat (S t)) (Z.to_nat szz)) (fun t => 100 <=? nth t procs 0) in
       match replay c (map Z.to_nat sch) (init_st f0) with
       | None => [ST_ERR; 7]
       | Some s => ST_OK :: flat_map (fun t => pc_code (pcs s t)) (seq 0 n) ++ [-1] ++ file s
